@@ -30,6 +30,9 @@
 //
 //	-corpus DIR: the statements of DIR/*/query.sql split like splitStatements of
 //	/repo/parser/parser_test.go (all entries; non-SELECT statements only feed the history pool).
+//	-compose K : append the hand-written `adversarial` inputs and K random compositions of the
+//	SELECT/WITH inputs (set operations, nesting, WITH) to the inputs.
+//	-fresh N, -only I, -ctx a,b, -extra, -tails, -q, -seed N: see the flag descriptions.
 //
 // Output: one line per input, `<verdict>\t<query as given (hex with -hex)>`; verdict is
 //
@@ -42,10 +45,28 @@
 //
 // EXCLUSIONS (each one quotes the property text that justifies it; all are counted in SUMMARY):
 //
-//   - queries with a tail: "without its own FORMAT/SETTINGS/INTO OUTFILE tail".
-//   - queries not starting with SELECT / WITH (e.g. `(SELECT 1) UNION ALL (SELECT 2)`, `FROM t
-//     SELECT x`): "a SELECT query (starting with SELECT or WITH ...)".
-//   - see `contexts` below for the per-context notes; no context is excluded wholesale.
+//   - queries with a tail (skip tail): "without its own FORMAT/SETTINGS/INTO OUTFILE tail".  With the
+//     diagnostic flag -tails they are checked all the same; what then differs is (1) `(q FORMAT x)`
+//     is a parse error in every parenthesised context, (2) CREATE VIEW / INSERT / EXPLAIN print the
+//     FORMAT / SETTINGS children at their own level instead of inside the SelectWithUnionQuery.
+//   - queries not starting with SELECT / WITH (skip not-select; e.g. `(SELECT 1) UNION ALL (SELECT
+//     2)`, `FROM t SELECT x`): "a SELECT query (starting with SELECT or WITH ...)".
+//   - inputs that are not one SelectWithUnionQuery (skip not-union: `WITH x AS (..) INSERT ...` is
+//     an INSERT; skip multi / parse-error: not "a SELECT query").
+//   - see `contexts` below for the per-context notes; NO context of the property is excluded and
+//     no query class is excluded beyond the three above.
+//
+// FINDINGS of the search (reported as BAD, nothing is masked; see `adversarial`):
+//
+//   - statement-level `WITH ... SELECT ... UNION SELECT ... UNION ALL SELECT ...`: alone the
+//     three members are printed flat, inside ANY parentheses (every context but EXPLAIN, and
+//     the statement-level `(q)`) the first two are grouped in a nested SelectWithUnionQuery, and
+//     the other way round for `UNION DISTINCT ... UNION`.  Parser defect (the WITH path records
+//     a bare UNION as mode "ALL").
+//   - a back-quoted name containing a newline byte is printed raw, so Explain(q) has a physical
+//     line that an embedding cannot indent (also a C04 defect: the text is not a tree).
+//   - with -extra only (outside the property's list): `((q))` and `CREATE VIEW v AS (q)` lose the
+//     DISTINCT->ALL grouping of `a UNION b UNION ALL c`.
 //
 // Build: cd /verif/harness && go build -tags verif -o /verif/build/embed ./cmd/embed
 package main
@@ -432,6 +453,31 @@ func corpusStatements(dir string) []string {
 // changes, etc.; -compose K builds K more inputs out of random SELECT/WITH inputs.  A composition
 // whose parts have tails or that does not parse is skipped by the ordinary rules.
 
+// adversarial: hand-written inputs for the classes the search has found (always appended first by
+// -compose, so that a run on any corpus reproduces them):
+//   - statement-level WITH followed by a bare UNION and a mode change (the parser's
+//     parseSelectWithUnionWithParsedWith records a bare UNION as "ALL", the ordinary path as
+//     "UNION "; the DISTINCT->ALL grouping of the printer then differs between `q` and `(q)`);
+//   - names that contain a newline byte (printed raw: the text has a physical line that no
+//     embedding indents).
+var adversarial = []string{
+	"WITH 1 AS x SELECT x UNION SELECT 2 UNION ALL SELECT 3",
+	"WITH 1 AS x SELECT x UNION DISTINCT SELECT 2 UNION SELECT 3",
+	"WITH 1 AS x SELECT x UNION ALL SELECT 2 UNION SELECT 3 UNION ALL SELECT 4",
+	"SELECT 1 UNION SELECT 2 UNION ALL SELECT 3",
+	"SELECT 1 UNION DISTINCT SELECT 2 UNION ALL SELECT 3 UNION SELECT 4",
+	"WITH 1 AS x SELECT x INTERSECT SELECT 2 UNION SELECT 3 UNION ALL SELECT 4",
+	"SELECT `a\nb`",
+	"SELECT 1 AS `a\nb`",
+	"SELECT * FROM `a\nb`",
+	"SELECT 'a\nb', \"c\\nd\"",
+	"SELECT (EXPLAIN SELECT 1)",
+	"SELECT * FROM (EXPLAIN SELECT 1)",
+	"SELECT * FROM (EXPLAIN AST SELECT * FROM (EXPLAIN SELECT 1))",
+	"SELECT * FROM view(SELECT 1 UNION ALL SELECT 2)",
+	"SELECT 1 IN (SELECT 1), EXISTS (SELECT 2), (SELECT 3)",
+}
+
 func composeQueries(inputs []string, k int, seed uint64) []string {
 	var sel []string
 	for _, q := range inputs {
@@ -446,7 +492,8 @@ func composeQueries(inputs []string, k int, seed uint64) []string {
 	pick := func() string { return sel[g.intn(len(sel))] }
 	ops := []string{"UNION ALL", "UNION DISTINCT", "UNION", "INTERSECT", "EXCEPT", "INTERSECT DISTINCT", "EXCEPT ALL"}
 	op := func() string { return ops[g.intn(len(ops))] }
-	out := make([]string, 0, k)
+	out := make([]string, 0, k+len(adversarial))
+	out = append(out, adversarial...)
 	for i := 0; i < k; i++ {
 		a, b, c := pick(), pick(), pick()
 		var q string
@@ -785,6 +832,8 @@ func main() {
 		echo := inputs[idx]
 		if *useHex {
 			echo = hexOf(echo)
+		} else if strings.ContainsAny(echo, "\n\r\t") {
+			echo = "quoted:" + strconv.Quote(echo) // keep one output line per input
 		}
 		switch v.status {
 		case "ok":
